@@ -199,7 +199,7 @@ def build(c, wd, script, veldep=False, kick=False):
     gen = ("ld", float("nan"), 0, 0) if c.get("loaded") else (c.get("origin", "sh"), float("nan") if c.get("origin") == "re" else 0.0, 0, 0)
     d = sh_of(c)
     old, fname = mk.make_path(wd, "old", [x + d for x in c["old"]], c["maxlength"], generated=gen, path_number=7)
-    tis_set = {"maxlength": c["maxlength"], "allowmaxlength": c.get("allowmaxlength", False), "zero_momentum": False,
+    tis_set = {"maxlength": c["maxlength"], "allowmaxlength": c.get("allowmaxlength", False), "zero_momentum": bool(c.get("zero_momentum", False)),
                "n_jumps": c.get("n_jumps", 2), "quantis": False, "lambda_minus_one": (-3.0 + d if e["kind"] == "minus_lm1" else False), "accept_all": False}
     if c.get("cap") is not None:
         tis_set["interface_cap"] = c["cap"] + d
@@ -318,6 +318,7 @@ def wf_cases(draw):
     return {
         "ens": e, "old": old, "cap": cap, "n_jumps": nj, "move": "wf",
         "other_moves": draw(st.one_of(st.none(), st.lists(st.sampled_from(["sh", "wf"]), min_size=4, max_size=4))),
+        "zero_momentum": draw(st.booleans()),
         "maxlength": draw(st.sampled_from([8, 12, 20, 40, 80])),
         # precondition of wire fencing (staircase weights): the dynamics cannot jump over [lambda_i, cap),
         # whose width is >= 1 here, so increments are limited to +-1
@@ -345,6 +346,9 @@ def body_wf(rec, c):
         left, mid, right = intf_of(c["ens"])
         cap = c["cap"] if c["cap"] is not None else right
         w_old = wfref.wf_weight(c["old"], mid, cap)
+        # every velocity regeneration inside the move is asked for what the ensemble's settings say (zero_momentum)
+        bad = [r for r in getattr(eng, "vel_requests", []) if bool(r.get("zero_momentum", None)) != bool(c.get("zero_momentum", False)) or "zero_momentum" not in r]
+        rec.check(not bad, "wf:velocity-request-without-the-configured-zero_momentum", f"{bad[:2]} configured {bool(c.get('zero_momentum', False))} {info}")
         nsucc = sum(1 for cl in eng.calls if cl.get("success"))
         nfail = sum(1 for cl in eng.calls if not cl.get("success"))
         classes = ["wf", "wf:" + ("ACC" if acc else "rej:" + str(status)), f"wf:n_jumps={c['n_jumps']}"]
